@@ -72,6 +72,10 @@ type Violation struct {
 	Pos       string       `json:"pos"`
 	Decisions int          `json:"decisions"`
 	Stack     []string     `json:"stack,omitempty"`
+	// Alternates: input vectors of other explored paths that violate the same label (tried in
+	// turn by the native replay when the first one does not reproduce: a model may legitimately
+	// be coarser than the real environment for one vector and exact for the next)
+	Alternates [][]InputValue `json:"-"`
 }
 
 type PathResult struct {
@@ -652,11 +656,15 @@ func Explore(prog *ssa.Program, entry *ssa.Function, cfg *Config) *Summary {
 			sum.Paths++
 			sum.ByStatus[res.Status]++
 			for _, v := range res.Violations {
-				if !violLabels[v.Label] || len(sum.Violations) < 50 {
-					if !violLabels[v.Label] {
-						sum.Violations = append(sum.Violations, v)
-					}
+				if !violLabels[v.Label] {
+					sum.Violations = append(sum.Violations, v)
 					violLabels[v.Label] = true
+				} else {
+					for _, first := range sum.Violations {
+						if first.Label == v.Label && len(first.Alternates) < 40 {
+							first.Alternates = append(first.Alternates, v.Inputs)
+						}
+					}
 				}
 			}
 			sum.AssertsSym += res.AssertsSym
